@@ -203,7 +203,7 @@ def gen_op(rng, k):
     if k == "set_bad":
         return {"op": k, "p": p, "bk": rng.choice(["below", "above", "nan", "shape", "inf", "neg_inf"]), "u": rng.random()}
     if k in ("init_pub", "init_raw"):
-        return {"op": k, "p": p, "u": rng.random(), "seed": rng.randrange(1 << 30), "as_float": rng.random() < 0.3}
+        return {"op": k, "p": p, "u": rng.random(), "seed": rng.randrange(1 << 30), "as_float": rng.random() < 0.3, "dotted": rng.random() < 0.5}
     if k == "step":
         return {"op": k, "dirs": [rng.choice([-1, 0, 1]) for _ in range(16)], "mag": rng.choice([1.0, 1e3, 1e30]), "opt": rng.choice(["sgd", "adam"])}
     if k == "replace_constraint":
@@ -470,6 +470,10 @@ def execute(history):
                     try:
                         if k == "set":
                             setattr(owner, pub, arg)
+                        elif op.get("dotted") and "." in name:
+                            # the documented recursive form: root.initialize(**{"sub.module.param": value})
+                            module.initialize(**{name.rsplit(".", 1)[0] + "." + pub: arg})
+                            out.stats["probe:dotted_initialize"] += 1
                         else:
                             owner.initialize(**{pub: arg})
                     except (AttributeError, TypeError):
@@ -557,7 +561,11 @@ def execute(history):
                 g = torch.Generator().manual_seed(op["seed"])
                 rawv = (torch.randn(rawp.shape, generator=g, dtype=dtype) * 2.0)
                 try:
-                    owner.initialize(**{raw: rawv})
+                    if op.get("dotted") and "." in name:
+                        module.initialize(**{name: rawv})
+                        out.stats["probe:dotted_initialize"] += 1
+                    else:
+                        owner.initialize(**{raw: rawv})
                     ref.value[name] = c.transform(rawv).detach().clone()
                     ref.loose.discard(name)
                     accepted = True
